@@ -37,3 +37,21 @@ Proof.
     | exact tbl_src_nada_dsl_to_nada_mir | exact tbl_src_Output_init | exact tbl_src_Input_init ].
 Qed.
 Print Assumptions C10_tables.
+
+(* outputs: one for one, in order, each with the type recorded for its operation; inputs and parties: only
+   what the program constructed, with name, owner, documentation and type (ANY store, ANY output list) *)
+From NadaV.Proofs Require Import C18Proofs.
+Theorem C10_outputs_with_types : forall st fs0 outs m fs',
+  compile st fs0 outs = Ok (m, fs') -> Forall2 (out_rel st) outs (m_outputs m).
+Proof. exact compile_outputs. Qed.
+Print Assumptions C10_outputs_with_types.
+
+Theorem C10_inputs_and_parties_reproduced : forall st fs0 outs m fs',
+  compile st fs0 outs = Ok (m, fs') ->
+  (forall i, In i (m_inputs m) ->
+     exists k r, lookup k st = Some r /\ r_node r = AInput (i_name i) (i_party i) (i_doc i) /\ r_ty r = i_ty i)
+  /\ (forall p, In p (m_parties m) ->
+        In (p_name p) (map co_party outs)
+        \/ exists k r n doc, lookup k st = Some r /\ r_node r = AInput n (p_name p) doc).
+Proof. exact compile_inputs_parties. Qed.
+Print Assumptions C10_inputs_and_parties_reproduced.
